@@ -140,7 +140,10 @@ class C10(Prop):
             start = [rng.randint(2, 40), 1]
         else:
             start = [rng.randint(1, 40), rng.randint(2, 30)]
-        return dict(text=text, start=start)
+        c = dict(text=text, start=start)
+        if start != [1, 1] and rng.random() < 0.4:
+            c["via_filetext"] = True
+        return c
 
     # -- implementation ------------------------------------------------------
     def run_impl(self, case):
@@ -149,7 +152,19 @@ class C10(Prop):
         text, start = case["text"], case["start"]
         obs = {}
         try:
-            blk = PythonBlock(text, startpos=FilePos(start[0], start[1]))
+            if case.get("via_filetext"):
+                # the same FileText object is split once at (1,1) (which caches its derived positions) and is then
+                # given the case's start position: nothing cached for the first may leak into the second
+                from pyflyby._file import FileText
+                ft = FileText(text)
+                ft.endpos
+                try:
+                    PythonBlock(ft).statements
+                except Exception:
+                    pass
+                blk = PythonBlock(FileText(ft, startpos=FilePos(start[0], start[1])))
+            else:
+                blk = PythonBlock(text, startpos=FilePos(start[0], start[1]))
             blk.ast_node            # parse now ...
             # ... then parse and split the same text at another start position (as get_doctests does for a
             # repeated example): the first block's answers must not depend on it
@@ -164,6 +179,29 @@ class C10(Prop):
                                   node=(s.ast_node is not None),
                                   dump=(ast.dump(s.ast_node) if s.ast_node is not None else None))
                              for s in sts]
+            # "each piece parses on its own to the same tree": pyflyby's own parse of the piece alone against the
+            # statement's node in the parse of the whole text (type comments aside: whether they are parsed depends
+            # on the rest of the text)
+            def _dump(n):
+                # (no deepcopy: pyflyby's annotated nodes carry FilePos objects, whose (1,1) instance is shared)
+                if isinstance(n, ast.AST):
+                    return "%s(%s)" % (type(n).__name__, ", ".join(
+                        "%s=%s" % (f, _dump(getattr(n, f, None))) for f in n._fields if f != "type_comment"))
+                if isinstance(n, list):
+                    return "[%s]" % ", ".join(map(_dump, n))
+                return repr(n)
+            for i, s in enumerate(sts):
+                if s.ast_node is None:
+                    continue
+                try:
+                    alone = PythonBlock(s.text.joined, flags=s.flags).ast_node.body
+                    if len(alone) != 1 or _dump(alone[0]) != _dump(s.ast_node):
+                        obs["alone_mismatch"] = dict(index=i, piece=s.text.joined[:200],
+                                                     alone=[_dump(a)[:300] for a in alone], whole=_dump(s.ast_node)[:300])
+                        break
+                except Exception as e:
+                    obs["alone_mismatch"] = dict(index=i, piece=s.text.joined[:200], err=type(e).__name__ + ": " + str(e)[:120])
+                    break
         except Exception as e:
             obs["err"] = type(e).__name__
             obs["errmsg"] = str(e)[:200]
@@ -212,6 +250,9 @@ class C10(Prop):
             starts, tree = self._starts(case)
         except Exception as e:
             return [dict(what="harness: cannot compute starts", err=str(e))]
+        if "alone_mismatch" in obs:
+            fails.append(dict(what="a piece parsed on its own differs from its statement in the whole text",
+                              text=text[:300], start=start, **obs["alone_mismatch"]))
         body = tree.body
         node_pieces = [p for p in pieces if p["node"]]
         if len(node_pieces) != len(body):
